@@ -82,6 +82,9 @@ def fixed_cases(tier):
     # D2: a restarted watcher's first Subscribe carries the reboot evidence (infinite TTL: nothing heals it later)
     out.append({"fam": "infinite", "tm": inf, "fr": [0.5], "steps": [{"op": "wait", "when": ["d", 3.0]}, {"op": "crashW", "when": ["d", 0.1]}, {"op": "restartW", "when": ["d", 0.5]}], "faults": [["ok"]]})
     out.append({"fam": "infinite", "tm": inf, "fr": [0.5], "steps": [{"op": "wait", "when": ["d", 3.0]}, {"op": "crashO", "when": ["d", 0.1]}, {"op": "restartO", "when": ["d", 0.5]}], "faults": [["ok"]]})
+    # D11: graceful stop while the answer to the watcher's FindService still waits in the unicast send collector
+    for k in range(4):
+        out.append({"fam": "infinite", "tm": dict(inf, imax=0.01, reps=0, rmax=0.01), "fr": [0.0], "steps": [{"op": "stopO", "when": ["t", k, "-4"]}], "faults": [["ok"]]})
     out.append({"fam": "finite", "tm": fin, "fr": [0.5], "steps": [{"op": "wait", "when": ["d", 2.0]}, {"op": "fault-on", "when": ["d", 0.1]}, {"op": "wait", "when": ["d", 4.0]}, {"op": "fault-off", "when": ["d", 0.1]}],
                 "faults": [["delay", 1.5], ["drop"], ["dup"], ["ok"], ["delay", 0.4]]})
     return out
